@@ -250,7 +250,7 @@ func c16UsedStore(stale uint64, hm move.Move) *move.Store {
 		-heur.Captures - heur.CaptureRange, 3 * heur.MaxHistory, -3 * heur.MaxHistory, 32767, -32768, 1, -1}
 	ms.Push()
 	for i := 0; i < move.StoreSize; i++ {
-		m := move.Move(rng.Intn(1 << 15))
+		m := hx.U2M(uint64(rng.Intn(1 << 15)))
 		if rng.Intn(8) == 0 {
 			m = hm
 		}
@@ -310,14 +310,14 @@ func c16pObserve(c c16pCase, b *board.Board, st *stack.Stack[heur.StackMove], mr
 
 func c16pInput(c c16pCase, o c16pObs) string {
 	n := &hx.Nums{}
-	n.Int(c.base).U(uint64(c.hm)).B(o.ipl)
+	n.Int(c.base).U(hx.M2U(c.hm)).B(o.ipl)
 	n.Int(len(o.noisy))
 	for i, w := range o.noisy {
-		n.U(uint64(w.Move)).I(int64(w.Weight)).U(uint64(o.att[i]), uint64(o.vic[i]))
+		n.U(hx.M2U(w.Move)).I(int64(w.Weight)).U(uint64(o.att[i]), uint64(o.vic[i]))
 	}
 	n.Int(len(o.quiet))
 	for _, w := range o.quiet {
-		n.U(uint64(w.Move)).I(int64(w.Weight))
+		n.U(hx.M2U(w.Move)).I(int64(w.Weight))
 	}
 	n.Int(len(c.pokes))
 	for _, pk := range c.pokes {
@@ -337,7 +337,7 @@ func c16pParse(a hx.Args) c16pCase {
 	p := 0
 	next := func() int64 { v := a.I64(p); p++; return v }
 	c.base = int(next())
-	c.hm = move.Move(next())
+	c.hm = hx.U2M(uint64(next()))
 	next() // ipl as observed at generation time
 	nN := int(next())
 	p += 4 * nN
@@ -371,7 +371,7 @@ func runC16p(a hx.Args) string {
 	ms := c16UsedStore(c.stale, c.hm)
 	ms.Push()
 	for i := 0; i < c.base; i++ {
-		w := ms.Alloc(move.Move(i*7 + 1))
+		w := ms.Alloc(hx.U2M(uint64(i*7 + 1)))
 		w.Weight = Score(i)
 	}
 	lower := slices.Clone(ms.Frame())
@@ -395,15 +395,15 @@ func runC16p(a hx.Args) string {
 	n := &hx.Nums{}
 	n.B(o.ipl).Int(len(o.noisy))
 	for _, w := range o.noisy {
-		n.U(uint64(w.Move)).I(int64(w.Weight))
+		n.U(hx.M2U(w.Move)).I(int64(w.Weight))
 	}
 	n.Int(len(o.quiet))
 	for _, w := range o.quiet {
-		n.U(uint64(w.Move)).I(int64(w.Weight))
+		n.U(hx.M2U(w.Move)).I(int64(w.Weight))
 	}
 	n.B(intact).Int(after).Int(len(yielded))
 	for _, w := range yielded {
-		n.U(uint64(w.Move)).I(int64(w.Weight))
+		n.U(hx.M2U(w.Move)).I(int64(w.Weight))
 	}
 	return n.String()
 }
@@ -635,7 +635,7 @@ func genC16p(rng *hx.Rng, n int, tier string, emit func(hx.Input)) {
 		}
 		// random 15 bit encodings
 		for i := 0; i < per/3; i++ {
-			mk(move.Move(rng.Intn(1<<15)), "random")
+			mk(hx.U2M(uint64(rng.Intn(1<<15))), "random")
 		}
 		// own piece to a random square
 		for i := 0; i < per/6 && len(all) > 0; i++ {
@@ -716,7 +716,7 @@ func runC16h(a hx.Args) string {
 			moved := make([]int64, n)
 			captured := make([]int64, n)
 			for j := 0; j < n; j++ {
-				ms[j] = move.Weighted{Move: move.Move(next())}
+				ms[j] = move.Weighted{Move: hx.U2M(uint64(next()))}
 				moved[j], captured[j] = next(), next()
 				ms[j].Weight = Score(next())
 			}
@@ -763,7 +763,7 @@ func runC16h(a hx.Args) string {
 			n := int(next())
 			st := mkStack(f0, p0, t0, f1, p1, t1)
 			for j := 0; j < n; j++ {
-				m := move.Move(next())
+				m := hx.U2M(uint64(next()))
 				next() // moved
 				out.I(int64(mr.RankQuiet(m, b, st)))
 			}
@@ -798,7 +798,7 @@ func (x *c16hBuilder) failHigh(d int, st []heur.StackMove, ms []move.Weighted) {
 	x.n.Int(len(ms))
 	var sb strings.Builder
 	for _, w := range ms {
-		x.n.U(uint64(w.Move), uint64(x.b.SquaresToPiece[w.From()]), uint64(x.b.SquaresToPiece[x.b.CaptureSq(w.Move)])).I(int64(w.Weight))
+		x.n.U(hx.M2U(w.Move), uint64(x.b.SquaresToPiece[w.From()]), uint64(x.b.SquaresToPiece[x.b.CaptureSq(w.Move)])).I(int64(w.Weight))
 		fmt.Fprintf(&sb, " %s:%d", c16MoveStr(w.Move), w.Weight)
 	}
 	x.desc = append(x.desc, fmt.Sprintf("FailHigh(d=%d stack=%v moves=%s)", d, st, sb.String()))
@@ -816,7 +816,7 @@ func (x *c16hBuilder) rank(st []heur.StackMove, ms []move.Move) {
 	x.stackNums(st)
 	x.n.Int(len(ms))
 	for _, m := range ms {
-		x.n.U(uint64(m), uint64(x.b.SquaresToPiece[m.From()]))
+		x.n.U(hx.M2U(m), uint64(x.b.SquaresToPiece[m.From()]))
 	}
 	x.desc = append(x.desc, fmt.Sprintf("RankQuiet(stack=%v) on %d moves", st, len(ms)))
 }
